@@ -80,6 +80,34 @@ theorem C20_weierstrass (ak : List Rat) (hak : ∀ a ∈ ak, 0 ≤ a) (cs : Nat 
     0 ≤ weierstrass ak cs x ∧ weierstrass ak cs (List.replicate x.length 0) = 0 :=
   weierstrass_spec ak hak cs hmin x
 
+/-- Ackley ≥ 0 with equality at the origin, for any exponential `E` (monotone, E 0 = 1), any
+    square root `R` (non-negative, R 0 = 0) and any cosine bounded by 1 with value 1 at 0 -/
+theorem C20_ackley (E R cs : Rat → Rat) (a b : Rat) (ha : 0 ≤ a) (hb : 0 ≤ b)
+    (hEmono : ∀ u v, u ≤ v → E u ≤ E v) (hE0 : E 0 = 1) (hR : ∀ u, 0 ≤ u → 0 ≤ R u) (hR0 : R 0 = 0)
+    (hc : ∀ z, cs z ≤ 1) (hc0 : cs 0 = 1) (x : Vec) (hne : x ≠ []) :
+    0 ≤ ackley E R cs a b x ∧ ackley E R cs a b (List.replicate x.length 0) = 0 :=
+  ackley_spec E R cs a b ha hb hEmono hE0 hR hR0 hc hc0 x hne
+
+/-- expanded Scaffer F6 ≥ 0 with equality at the origin, for any `sin²` with values in [0, 1]
+    vanishing at 0 -/
+theorem C20_scaffer (sn2 : Rat → Rat) (h01 : ∀ s, 0 ≤ sn2 s ∧ sn2 s ≤ 1) (h0 : sn2 0 = 0) (x : Vec) :
+    0 ≤ scaffer sn2 x ∧ scaffer sn2 (List.replicate x.length 0) = 0 :=
+  scaffer_spec sn2 h01 h0 x
+
+/-- Schwefel 2.6 ≥ 0 with equality when `A x = A o` (in particular at x = o) -/
+theorem C20_schwefel26 (ax ao : Vec) : 0 ≤ schwefel26 ax ao ∧ schwefel26 ao ao = 0 :=
+  schwefel26_spec ax ao
+
+/-- Schwefel 2.13 ≥ 0 with equality when `B(x) = A` (at x = α) -/
+theorem C20_schwefel213 (A B : Vec) : 0 ≤ schwefel213 A B ∧ schwefel213 A A = 0 :=
+  schwefel213_spec A B
+
+/-- F8F2 (Griewank of Rosenbrock) ≥ 0 with equality at the all-ones point, for any one-dimensional
+    Griewank `g` that is non-negative and vanishes at 0 -/
+theorem C20_f8f2 (g : Rat → Rat) (hg : ∀ u, 0 ≤ g u) (hg0 : g 0 = 0) (x : Vec) :
+    0 ≤ f8f2 g x ∧ f8f2 g (List.replicate x.length 1) = 0 :=
+  f8f2_spec g hg hg0 x
+
 /-- a shifted problem is at least its bias, with equality at the shift point, whenever the base
     function is non-negative and vanishes at the origin -/
 theorem C20_shifted (f : Vec → Rat) (o : Vec) (bias : Rat) (hf : ∀ z, 0 ≤ f z)
